@@ -93,7 +93,60 @@ private theorem cs_core (tbl : List Char) (d : Bits) :
 theorem cs20_tie (m : Msg) (h : IsHex m) (hl : m.length = 28) :
     Gen.bds20.cs20 (.str m) = (PyModeS.cs20 (hex2binM m) >>= fun cs => .val (.str cs)) := by
   unfold Gen.bds20.cs20 PyModeS.cs20
-  commb_open m h hl
-  exact cs_core Tables.cs20Chars d
+  rw [← chars_lit]
+  generalize "#ABCDEFGHIJKLMNOPQRSTUVWXYZ#####_###############0123456789######".toList = tbl
+  dsimp only
+  -- (`simp only [Res.bind_val, …]` is extremely slow on this 32-step block; plain rewriting is instant)
+  rw [data_str, Res.bind_val, hex2bin_data m h hl, Res.bind_val, dataR_hex m hl, Res.bind_val]
+  exact cs_core tbl _
+
+private theorem toDigit_inj : Function.Injective Bool.toDigit := by
+  intro a b; cases a <;> cases b <;> decide
+
+private theorem beq_bits (a b : Bits) : Val.beq (Val.ofBits a) (Val.ofBits b) = decide (a = b) := by
+  simp only [Val.ofBits, Val.beq]
+  by_cases hab : a = b
+  · simp [hab]
+  · have : a.map Bool.toDigit ≠ b.map Bool.toDigit := fun e => hab (List.map_injective_iff.mpr toDigit_inj e)
+    simp [hab, this]
+
+private theorem pyNe_bits (a b : Bits) : pyNe (Val.ofBits a) (Val.ofBits b) = .val (.bool (decide (a ≠ b))) := by
+  simp [pyNe, beq_bits]
+
+private theorem lit20 : Val.str ['0', '0', '1', '0', '0', '0', '0', '0'] = Val.ofBits (natToBits 8 0x20) := rfl
+
+/-- `"#" in s` -/
+private theorem isInfix_single (c : Char) (s : List Char) : isInfix [c] s = s.contains c := by
+  induction s with
+  | nil => rfl
+  | cons x xs ih =>
+    simp only [isInfix, ih, List.isPrefixOf, List.contains_cons]
+    cases xs <;> simp [List.isPrefixOf, eq_comm]
+
+private theorem pyIn_hash (s : List Char) : pyIn (.str ['#']) (.str s) = .val (.bool (s.contains '#')) := by
+  simp only [pyIn, isInfix_single]
+
+theorem is20_tie (m : Msg) (h : IsHex m) (hl : m.length = 28) :
+    Gen.bds20.is20 (.str m) = (PyModeS.is20 (hex2binM m) >>= fun b => .val (.bool b)) := by
+  unfold Gen.bds20.is20 PyModeS.is20
+  simp only [allzeros_str m h hl, allzerosB_hex m hl, cs20_tie m h hl]
+  simp only [data_str, Res.bind_val, hex2bin_data m h hl, dataR_hex m hl]
+  have hd := mb_length m hl
+  generalize PyModeS.cs20 (hex2binM m) = rc
+  generalize slice 32 88 (hex2binM m) = d at hd ⊢
+  by_cases hz : PyModeS.bin2int d = 0
+  · simp [hz]
+  simp only [hz, decide_false, pyTruth_bool, Bool.false_eq_true, if_false, pySliceNN_ofBits, Res.bind_val,
+    lit20, pyNe_bits]
+  by_cases hp : slice 0 8 d = natToBits 8 32
+  · simp [hp, hd, bin2intR_slice_of_lt, Val.ofNat]
+    by_cases hv : PyModeS.bin2int (slice 8 56 d) = 0
+    · simp [hv]
+    · simp [hv]
+      rcases rc with (cs | _ | _)
+      · by_cases hc : '#' ∈ cs <;> simp [pyIn_hash, hc]
+      · rfl
+      · rfl
+  · simp [hp]
 
 end PyModeS.Tie
